@@ -228,10 +228,12 @@ CHECKS = {
          "P ++ new ++ x :: Q / P ++ x :: new ++ Q, so all other nodes keep identity and order; a target that is not found gives "
          "ValueError (nothing changed); insert(index) puts the value's nodes IN ORDER at the position list.insert would use for any "
          "index; append adds at the end; any rendering distributes over the pieces, so exactly the target's span of text changes. "
-         "The list-level model is the one tied to /repo in C11. The lift through enclosing nodes and string targets are checked by an "
-         "oracle on parsed trees (targets at any depth located by identity, equal-text nodes, foreign nodes, indices, strings).",
+         "Through enclosing nodes (all trees): a Wikicode in any place __children__ yields, at any depth, is rendered verbatim once "
+         "between a prefix and a suffix independent of it, so an edit of a nested list changes exactly its span of the page text. "
+         "The list-level model is the one tied to /repo in C11. String targets are checked by an oracle on parsed trees (targets at "
+         "any depth located by identity, equal-text nodes, foreign nodes, indices, strings, section views held and used as targets).",
     design_ref="DESIGN.md section 5, C08",
-    note="Trusted: as C11/C13; the nested lift (each child Wikicode is rendered verbatim once) and string targets are testing. No axioms.",
+    note="Trusted: as C11/C13, C09 (children_of tie); string targets are testing. No axioms.",
     technique="Coq proof (list decomposition at the found index, induction over the inserted nodes) + edit oracle on parsed trees"),
 }
 
